@@ -9,6 +9,7 @@ import CssVerif.Driver.DeclOps
 import CssVerif.Driver.SheetOps
 import CssVerif.Driver.CodecOps
 import CssVerif.Driver.NumOps
+import CssVerif.Driver.SelOps
 open CssVerif CssVerif.Proto
 
 def showTok (t : Tok) : String :=
@@ -45,6 +46,7 @@ def step (line : String) : String :=
   | ["decl", hist] => DeclOps.run hist
   | ["sheet", fx, hist] => SheetOps.run fx hist
   | ["cont", which, hist] => SheetOps.runCont which hist
+  | ["sel", ns, hex] => SelOps.opSel ns hex
   | ["num", fx, om, hex] => NumOps.opNum fx om hex
   | ["numval", hex] => NumOps.opVal hex
   | ["hexc", hex] => NumOps.opHex hex
